@@ -39,7 +39,16 @@ RULE = ('option lists of length 0..7 are drawn with replacement from a per-case 
         'opts.lib("m") / opts.lib_literal("-lm"), opts.lib_dir + opts.lib of an outside archive (directory option at '
         'the same or another placement) and opts.rpath_dir given in global_link_options, in link_options= of the program, '
         'of a shared library and of a static library (forwarded); the code of that binary calls cbrt/hypot on run-time '
-        'values and the outside library; DT_NEEDED and RUNPATH are read back with readelf.')
+        'values and the outside library; DT_NEEDED and RUNPATH are read back with readelf. Flag variables stay on their '
+        'side: configurations whose link-side variables (LDFLAGS, toolchain link_options) hold words that mean something '
+        'when compiling (-pthread, -O2, -fopenmp, -ffast-math, -funsigned-char, -fstack-protector-all) and whose '
+        'compile-side variables (CPPFLAGS, CFLAGS, CXXFLAGS, toolchain compile_options in list and string form) hold words '
+        'that mean something when linking (-s, -no-pie, -Wl,--defsym), sometimes one word on both sides; in process the '
+        'final compile and link command lines carry every such word exactly as often as the variables of that side give '
+        'it; as real projects (program in C, static and shared library in C or C++, one target asking for opts.pthread() '
+        'itself, raw words on targets and globally) every translation unit reports the predefined macros it was compiled '
+        'under (exact set, so also what it must NOT see), the program reads a weak absolute symbol, every linked binary '
+        'is read back (symbol table, file type) and the command lines make prints are compared word by word.')
 TRUSTED = ('R model: accepted-flag grammar of Misc/Options.v, validated against gcc 12 and clang 14 on this run '
            '(exit status of -fsyntax-only / link probes)',
            'effects (predefined macros, warnings-as-errors, entry point, sections) are observed on the real compilers, '
@@ -466,14 +475,17 @@ def stage_w_merge(rep, rng, n, fixed, dfix):
     from bfg9000.builtins import compile as bcompile, link as blink
     calls, impl = [], []
     envs = [{}, {'CFLAGS': '-O1 -DENV=1', 'CPPFLAGS': '-DCPP', 'LDFLAGS': '-Wl,--as-needed -O1', 'LDLIBS': '-lm'},
-            {'CFLAGS': "-DQ='a b'", 'LDLIBS': '-lz -lm'}]
+            {'CFLAGS': "-DQ='a b'", 'LDLIBS': '-lz -lm'}, {'LDFLAGS': '-pthread -s', 'CPPFLAGS': '-DCPP=2 -s'}]
     for vi, variables in enumerate(envs):
         with Tools(variables) as t:
             StubC = type('StubCompile', (bcompile.BaseCompile,), {})
             StubL = type('StubLink', (blink.DynamicLink,), {})
-            envc = [t.canon_flag(f) for f in t.compiler.global_flags]
-            envl = [t.canon_flag(f) for f in t.linker.global_flags]
-            envlibs = [t.canon_flag(f) for f in t.linker.global_libs]
+            # what the flag variables give each side, read off the variables themselves (not off the builder: merging
+            # them is CcBuilder.__init__, which is part of what is tied)
+            import shlex
+            envc = shlex.split(variables.get('CPPFLAGS', '')) + shlex.split(variables.get('CFLAGS', ''))
+            envl = shlex.split(variables.get('LDFLAGS', ''))
+            envlibs = shlex.split(variables.get('LDLIBS', ''))
             for _ in range(n // len(envs)):
                 for side in ('cc', 'ld'):
                     stream = side if rng.random() < 0.85 else 'mixed'
@@ -1348,6 +1360,346 @@ def stage_system_words(rep, rng, cs, thorough):
     rep.stage('system:option words', projects=n, ok=n_ok)
 
 
+# ----------------------------------------------------------------------------- flag variables stay on their side
+# Words a flag variable can hold, with what they mean on EACH side.  A word of the link-side variables (LDFLAGS, toolchain
+# link_options) that the compiler driver also understands when compiling would change the translation units of targets
+# that never asked for it; a word of the compile-side variables (CPPFLAGS, CFLAGS/CXXFLAGS, toolchain compile_options)
+# that the driver understands when linking would change every linked binary.  macro: predefined macros the word switches
+# on when compiling (validated against the real gcc on every run); link: what it does to a linked binary.
+SIDE_WORDS = {
+    '-pthread': {'macros': ['_REENTRANT']},
+    '-O2': {'macros': ['__OPTIMIZE__']},
+    '-fopenmp': {'macros': ['_OPENMP', '_REENTRANT']},
+    '-ffast-math': {'macros': ['__FAST_MATH__']},
+    '-funsigned-char': {'macros': ['__CHAR_UNSIGNED__']},
+    '-fstack-protector-all': {'macros': ['__SSP_ALL__']},
+    '-s': {'macros': [], 'link': 'stripped'},
+    '-no-pie': {'macros': [], 'link': 'exec'},
+    '-Wl,--defsym=c16_side_sym=0x2a': {'macros': [], 'link': 'defsym'},
+}
+SIDE_MACROS = ['_REENTRANT', '__OPTIMIZE__', '_OPENMP', '__FAST_MATH__', '__CHAR_UNSIGNED__', '__SSP_ALL__']
+# link-side words that are harmless on every link step (executables and shared libraries alike)
+SIDE_LD_POOL = ['-pthread', '-O2', '-fopenmp', '-ffast-math', '-funsigned-char', '-fstack-protector-all', '-s',
+                '-Wl,--defsym=c16_side_sym=0x2a']
+SIDE_CC_POOL = ['-pthread', '-O2', '-ffast-math', '-funsigned-char', '-fstack-protector-all', '-s', '-no-pie',
+                '-Wl,--defsym=c16_side_sym=0x2a']
+# semantic options a target can ask for itself, with the word the documentation promises
+SIDE_SEMANTIC = {'opts.pthread()': '-pthread'}
+
+
+def side_macros(words):
+    res = set()
+    for w in words:
+        res.update(SIDE_WORDS.get(w, {}).get('macros', []))
+    return sorted(res)
+
+
+def gen_side_config(rng, form):
+    """Flag variables of one configuration.  form 'env': CPPFLAGS / CFLAGS / CXXFLAGS / LDFLAGS in the environment;
+    'toolchain': compile_options(...) / link_options(...) of a toolchain file (list or string form).  The link side always
+    holds a word that means something when compiling which the compile side does not hold, and the other way round;
+    sometimes one word is given on both sides (then it belongs on both)."""
+    cc_only = rng.sample([w for w in SIDE_CC_POOL if SIDE_WORDS[w].get('link')], rng.choice([1, 1, 2]))
+    ld_only = rng.sample([w for w in SIDE_LD_POOL if SIDE_WORDS[w]['macros']], rng.choice([1, 2, 3]))
+    both = [w for w in rng.sample(sorted(set(SIDE_CC_POOL) & set(SIDE_LD_POOL)), rng.choice([0, 0, 1]))
+            if w not in cc_only and w not in ld_only]
+    cc_macro = [w for w in rng.sample([w for w in SIDE_CC_POOL if SIDE_WORDS[w]['macros']], rng.choice([0, 1]))
+                if w not in ld_only]
+    cfg = {'form': form, 'cpp': [], 'c': [], 'c++': [], 'ld': ld_only + both}
+    compile_words = cc_only + both + cc_macro
+    rng.shuffle(compile_words)
+    rng.shuffle(cfg['ld'])
+    for w in compile_words:
+        # CPPFLAGS reach every language; CFLAGS / CXXFLAGS one each (a toolchain file has no CPPFLAGS)
+        where = rng.choice(['cpp', 'lang', 'lang']) if form == 'env' else 'lang'
+        if where == 'cpp':
+            cfg['cpp'].append(w)
+        else:
+            cfg['c'].append(w)
+            cfg['c++'].append(w)
+    if rng.random() < 0.4 and cfg['c++']:
+        cfg['c++'] = cfg['c++'][:-1]          # the two languages need not agree
+    cfg['tcstyle'] = rng.choice(['list', 'string'])
+    return cfg
+
+
+def side_compile_words(cfg, lang):
+    return cfg['cpp'] + cfg[lang]
+
+
+def stage_oracle_sides(rep, rng, n):
+    """In process: the real CcBuilder built from flag variables; the final compile and link command lines (real _get_flags
+    and tool calls, no options of the project).  Every word of the link-side variables is on the link line and not on the
+    compile line, every word of the compile-side variables is on the compile line and not on the link line - unless the
+    same word was given on the other side as well (counted with multiplicity)."""
+    import shlex
+    from bfg9000 import options as opts
+    from bfg9000.builtins import compile as bcompile, link as blink
+    bad = 0
+    for k in range(n):
+        cfg = gen_side_config(rng, 'env')
+        variables = {}
+        if cfg['cpp']:
+            variables['CPPFLAGS'] = shlex.join(cfg['cpp'])
+        if cfg['c']:
+            variables['CFLAGS'] = shlex.join(cfg['c'])
+        if cfg['ld']:
+            variables['LDFLAGS'] = shlex.join(cfg['ld'])
+        libs = rng.choice([[], ['-lm'], ['-lm', '-lz']])
+        if libs:
+            variables['LDLIBS'] = shlex.join(libs)
+        rep.case('sides:%r' % (sorted(variables.items()),), True)
+        with Tools(variables) as t:
+            StubC = type('StubCompile', (bcompile.BaseCompile,), {})
+            StubL = type('StubLink', (blink.DynamicLink,), {})
+            be = _Backend()
+            sc = object.__new__(StubC)
+            sc.compiler = t.compiler
+            sc._internal_options = opts.option_list()
+            sc.user_options = opts.option_list()
+            sc.raw_output = None
+
+            def run_cc():
+                variables_, kw = bcompile._get_flags(be, sc, {'compile_options': {'c': []}}, None)
+                return be.expand(t.compiler('in.c', 'out.o', **kw), variables_)
+            sl = object.__new__(StubL)
+            sl.linker = t.linker
+            sl._internal_options = opts.option_list()
+            sl.user_options = opts.option_list()
+            sl.raw_output = t.output()
+
+            def run_ld():
+                variables_, kw = blink._get_flags(be, sl, {'link_options': {'dynamic': {t.linker.family: []}}}, None)
+                return be.expand(t.linker(['a.o'], 'prog', **kw), variables_)
+            rc, rl = t.canon(run_cc), t.canon(run_ld)
+        if not (isinstance(rc, tuple) and isinstance(rl, tuple)):
+            bad += 1
+            rep.fail('flag variables %r: the compile / link command line cannot be produced (%r / %r)' % (variables, rc, rl),
+                     {'kind': 'flag-variable-sides', 'variables': variables})
+            continue
+        want_cc, want_ld = side_compile_words(cfg, 'c'), cfg['ld'] + libs
+        wrong = []
+        for w in sorted(set(want_cc + want_ld)):
+            for side, argv, want in (('compile', rc[1], want_cc), ('link', rl[1], want_ld)):
+                if argv.count(w) != want.count(w):
+                    wrong.append((w, side, argv.count(w), want.count(w)))
+        rep.count('oracle:flag-variable-sides:' + ('word on both sides' if set(want_cc) & set(want_ld) else 'disjoint words'))
+        if wrong:
+            bad += 1
+            w, side, got, want = wrong[0]
+            rep.fail('flag variables %r: the word %r occurs %d times on the %s command line, the variables of that side give '
+                     'it %d times (%d such words); compile: %r, link: %r' % (variables, w, got, side, want, len(wrong),
+                                                                            rc[1], rl[1]),
+                     {'kind': 'flag-variable-sides', 'variables': variables, 'compile_argv': rc[1], 'link_argv': rl[1],
+                      'wrong': wrong})
+    rep.stage('oracle:flag variables stay on their side (in process)', configurations=n, failures=bad)
+    return bad
+
+
+SIDE_PROBE = ''.join('#ifdef %s\n  m |= %du;\n#endif\n' % (m, 1 << k) for k, m in enumerate(SIDE_MACROS))
+
+
+def side_mask(macros):
+    return sum(1 << SIDE_MACROS.index(m) for m in set(macros))
+
+
+def validate_side_words(rep, cs):
+    """the table above against the real gcc / g++: each word alone switches on exactly its macros"""
+    src = cs.write('unsigned seen(void) { unsigned m = 0;\n%s  return m; }\n' % SIDE_PROBE)
+    ok = True
+    for tool, x in (('gcc', 'c'), ('g++', 'c++')):
+        for w in [None] + sorted(SIDE_WORDS):
+            rc, out, err = cs.run([tool, '-x', x, '-dM', '-E'] + ([w] if w else []) + [src])
+            got = sorted(m for m in SIDE_MACROS if any(l.split()[1:2] == [m] for l in out.split('\n')))
+            want = sorted(SIDE_WORDS[w]['macros']) if w else []
+            if rc != 0 or got != want:
+                ok = False
+                rep.fail('R:side-words - %s %s defines %r, the table says %r (%s)' % (tool, w, got, want, err.strip()[-200:]),
+                         {'obligation': 'R:side-words', 'tool': tool, 'word': w, 'got': got, 'want': want}, found_input=False)
+    return ok
+
+
+def sides_project(cs, tag, cfg, shape, env0):
+    """One project configured under the flag variables cfg.  shape: per target ('prog', 'sa' static library, 'sb' shared
+    library in a sub-directory) its language, its own compile options and its own link options (raw words or semantic
+    options).  Every translation unit reports the predefined macros it was compiled under; every linked binary is read
+    back.  Returns [(what, replay)]."""
+    import shlex
+    d = os.path.join(cs.root, 'sides-' + tag)
+    src, bld = os.path.join(d, 'src'), os.path.join(d, 'build')
+    os.makedirs(src)
+    files = {}
+    ext = {'c': '.c', 'c++': '.cpp'}
+    for t in ('sa', 'sb'):
+        lang = shape[t]['lang']
+        files[t + ext[lang]] = ('%sunsigned seen_%s(void) { unsigned m = 0;\n%s  return m; }\n' % (
+            'extern "C" ' if lang == 'c++' else '', t, SIDE_PROBE))
+    files['main.c'] = ('#include <stdio.h>\nunsigned seen_sa(void);\nunsigned seen_sb(void);\n'
+                       'extern char c16_side_sym[] __attribute__((weak));\nstatic char *volatile c16_side_p = c16_side_sym;\n'
+                       'int main(void) { unsigned m = 0;\n%s  printf("prog=%%u sa=%%u sb=%%u sym=%%ld\\n", m, seen_sa(), seen_sb(), '
+                       '(long)c16_side_p);\n  return 0; }\n' % SIDE_PROBE)
+
+    def lst(words):
+        return ', '.join(w if w in SIDE_SEMANTIC else repr(w) for w in words)
+    L = ["project('c16sides', intermediate_dirs=False)"]
+    if shape['global']['c'] or shape['global']['c++']:
+        for lang in ('c', 'c++'):
+            if shape['global'][lang]:
+                L.append('global_options([%s], lang=%r)' % (lst(shape['global'][lang]), lang))
+    if shape['global']['ld']:
+        L.append('global_link_options([%s])' % lst(shape['global']['ld']))
+    L.append("sa = static_library('sa', files=[%r], compile_options=[%s])" % ('sa' + ext[shape['sa']['lang']], lst(shape['sa']['cc'])))
+    L.append("sb = shared_library('sub/sb', files=[%r], compile_options=[%s], link_options=[%s])" % (
+        'sb' + ext[shape['sb']['lang']], lst(shape['sb']['cc']), lst(shape['sb']['ld'])))
+    L.append("executable('prog', files=['main.c'], libs=[sa, sb], compile_options=[%s], link_options=[%s])" % (
+        lst(shape['prog']['cc']), lst(shape['prog']['ld'])))
+    files['build.bfg'] = '\n'.join(L) + '\n'
+    for k, v in files.items():
+        with open(os.path.join(src, k), 'w') as f:
+            f.write(v)
+    env = {k: v for k, v in env0.items() if k not in ('CFLAGS', 'CPPFLAGS', 'CXXFLAGS', 'LDFLAGS', 'LDLIBS')}
+    tcargs, tc = [], None
+    if cfg['form'] == 'env':
+        for var, key in (('CPPFLAGS', 'cpp'), ('CFLAGS', 'c'), ('CXXFLAGS', 'c++'), ('LDFLAGS', 'ld')):
+            if cfg[key]:
+                env[var] = shlex.join(cfg[key])
+    else:
+        def arg(words):
+            return repr(words if cfg['tcstyle'] == 'list' else shlex.join(words))
+        tc = ''.join('compile_options(%s, %r)\n' % (arg(cfg[l]), l) for l in ('c', 'c++') if cfg[l])
+        tc += 'link_options(%s)\n' % arg(cfg['ld']) if cfg['ld'] else ''
+        with open(os.path.join(d, 'toolchain.bfg'), 'w') as f:
+            f.write(tc)
+        tcargs = ['--toolchain', os.path.join(d, 'toolchain.bfg')]
+    replay = {'kind': 'flag-variable-sides-project', 'config': cfg, 'shape': shape, 'build.bfg': files['build.bfg'],
+              'toolchain.bfg': tc, 'environment': {k: env[k] for k in ('CPPFLAGS', 'CFLAGS', 'CXXFLAGS', 'LDFLAGS') if k in env}}
+    res = []
+
+    def words_of(ws):
+        return [SIDE_SEMANTIC.get(w, w) for w in ws]
+    try:
+        p = subprocess.run(['bfg9000', 'configure-into', src, bld, '--backend=make', '--no-resolve-packages'] + tcargs,
+                           env=env, capture_output=True, text=True, timeout=300)
+        if p.returncode != 0:
+            return [('configure fails: %s' % (p.stderr or p.stdout)[-400:], dict(replay, stderr=p.stderr[-2000:]))]
+        # the flag variables exist while configuring only
+        benv = {k: v for k, v in env.items() if k not in ('CFLAGS', 'CPPFLAGS', 'CXXFLAGS', 'LDFLAGS', 'LDLIBS')}
+        p = subprocess.run(['make', '-C', bld, '--no-print-directory'], env=benv, capture_output=True, text=True, timeout=300)
+        if p.returncode != 0:
+            return [('the build fails: %s' % (p.stderr or p.stdout)[-500:], dict(replay, make=(p.stdout + p.stderr)[-3000:]))]
+        # what each side was given, per target
+        cc_want = {t: side_compile_words(cfg, shape[t]['lang']) + words_of(shape['global'][shape[t]['lang']]) +
+                   words_of(shape[t]['cc']) for t in ('prog', 'sa', 'sb')}
+        ld_want = {t: cfg['ld'] + words_of(shape['global']['ld']) + words_of(shape[t]['ld']) for t in ('prog', 'sb')}
+        # static: the command lines make printed
+        seen_lines = {'compile': set(), 'link': set()}
+        for line in p.stdout.split('\n'):
+            try:
+                argv = shlex.split(line)
+            except ValueError:
+                continue
+            if not argv or os.path.basename(argv[0]) not in ('cc', 'gcc', 'c++', 'g++') or '-o' not in argv:
+                continue
+            if '-c' in argv:
+                t = next((t for t in ('prog', 'sa', 'sb') if any(
+                    os.path.basename(a) in ('main.c' if t == 'prog' else t + '.c', t + '.cpp') for a in argv)), None)
+                side, want = 'compile', cc_want.get(t)
+            else:
+                out = os.path.basename(argv[argv.index('-o') + 1])
+                t = {'prog': 'prog', 'libsb.so': 'sb'}.get(out)
+                side, want = 'link', ld_want.get(t)
+            if t is None:
+                continue
+            seen_lines[side].add(t)
+            wrong = [(w, argv.count(w), want.count(w)) for w in sorted(SIDE_WORDS) if argv.count(w) != want.count(w)]
+            if wrong:
+                w, got, wn = wrong[0]
+                res.append(('the %s command line of %s carries the word %r %d times; the options and flag variables of that side '
+                            'give it %d times (%d such words): %r' % (side, t, w, got, wn, len(wrong), argv),
+                            dict(replay, target=t, side=side, argv=argv, wrong=wrong)))
+        if seen_lines['compile'] != {'prog', 'sa', 'sb'} or seen_lines['link'] != {'prog', 'sb'}:
+            res.append(('the command lines printed by make are not those of the three compile and two link steps: %r' % seen_lines,
+                        dict(replay, make=p.stdout[-3000:])))
+        # dynamic: the macros every translation unit saw, and the linked binaries
+        r = subprocess.run([os.path.join(bld, 'prog')], capture_output=True, text=True, timeout=60, cwd='/')
+        want_line = 'prog=%d sa=%d sb=%d sym=%d' % (
+            side_mask(side_macros(cc_want['prog'])), side_mask(side_macros(cc_want['sa'])), side_mask(side_macros(cc_want['sb'])),
+            42 if any(SIDE_WORDS.get(w, {}).get('link') == 'defsym' for w in ld_want['prog']) else 0)
+        if r.returncode != 0 or r.stdout.strip() != want_line:
+            def names(mask):
+                return [m for k, m in enumerate(SIDE_MACROS) if mask >> k & 1]
+            got = dict(x.split('=') for x in r.stdout.split() if '=' in x)
+            detail = '; '.join('%s was compiled with %r defined, its options and the compile-side variables give %r' % (
+                t, names(int(got.get(t, '0') or 0)), side_macros(cc_want[t])) for t in ('prog', 'sa', 'sb')
+                if got.get(t) != str(side_mask(side_macros(cc_want[t]))))
+            res.append(('the program prints %r (exit %d), expected %r: %s' % (r.stdout.strip(), r.returncode, want_line,
+                                                                             detail or 'the link-side symbol differs'),
+                        dict(replay, stdout=r.stdout[-500:], expected=want_line)))
+        for t, path in (('prog', os.path.join(bld, 'prog')), ('sb', os.path.join(bld, 'sub', 'libsb.so'))):
+            sec = subprocess.run(['readelf', '-S', '-h', '--wide', path], capture_output=True, text=True).stdout
+            stripped = '.symtab' not in sec
+            exec_type = 'EXEC (Executable file)' in sec
+            kinds = set(SIDE_WORDS.get(w, {}).get('link') for w in ld_want[t])
+            if stripped != ('stripped' in kinds) or (t == 'prog' and exec_type != ('exec' in kinds)):
+                res.append(('the linked binary of %s is %sstripped and %s position-dependent executable; its link options and the '
+                            'link-side variables %r say %sstripped and %s' % (
+                                t, '' if stripped else 'not ', 'a' if exec_type else 'no', ld_want[t],
+                                '' if 'stripped' in kinds else 'not ', 'one' if 'exec' in kinds else 'none'),
+                            dict(replay, target=t, link_words=ld_want[t])))
+        return res
+    finally:
+        shutil.rmtree(d, ignore_errors=True)
+
+
+def gen_side_shape(rng):
+    """own options of the targets: one of the two libraries asks for pthread itself (semantic option), the other targets
+    do not; raw words here and there"""
+    asker = rng.choice(['sa', 'sb', 'prog'])
+    shape = {'global': {'c': [], 'c++': [], 'ld': []}}
+    for t in ('prog', 'sa', 'sb'):
+        cc = ['opts.pthread()'] if t == asker else []
+        if rng.random() < 0.3:
+            cc.append(rng.choice(['-funsigned-char', '-ffast-math']))
+        shape[t] = {'lang': 'c' if t == 'prog' else rng.choice(['c', 'c', 'c++']), 'cc': cc, 'ld': []}
+    if rng.random() < 0.3:
+        shape[rng.choice(['prog', 'sb'])]['ld'].append('-s')
+    if rng.random() < 0.3:
+        w = rng.choice(['-O2', '-fstack-protector-all'])
+        shape['global']['c'].append(w)
+        shape['global']['c++'].append(w)
+    if rng.random() < 0.25:
+        shape['global']['ld'].append('-Wl,--defsym=c16_side_sym=0x2a')
+    return shape
+
+
+def stage_system_sides(rep, rng, cs, thorough, extra=0):
+    """Projects (program + static library + shared library in a sub-directory, C and C++) configured under flag variables
+    whose link-side words mean something when compiling and whose compile-side words mean something when linking, given
+    in the environment and in a toolchain file; really configured, built with gcc/g++, run, read back."""
+    if not validate_side_words(rep, cs):
+        return
+    env0 = common.impl_env()
+    n = (12 if thorough else 4) + extra
+    jobs = []
+    for k in range(n):
+        form = ['env', 'toolchain'][k % 2]
+        jobs.append(('%d-%s' % (k, form), gen_side_config(rng, form), gen_side_shape(rng)))
+    with ThreadPoolExecutor(max_workers=4) as ex:
+        res = list(ex.map(lambda j: sides_project(cs, j[0], j[1], j[2], env0), jobs))
+    n_ok = 0
+    for (tag, cfg, shape), r in zip(jobs, res):
+        rep.case('sides-project:%r:%r' % (cfg, shape), True)
+        rep.count('system:flag-variable-sides:' + cfg['form'])
+        for t in ('sa', 'sb'):
+            rep.count('system:flag-variable-sides:library-language:' + shape[t]['lang'])
+        n_ok += not r
+        for what, replay in r[:3]:
+            rep.fail('system: flag variables (compile side: CPPFLAGS %r, C %r, C++ %r; link side: %r; given as %s): %s' % (
+                cfg['cpp'], cfg['c'], cfg['c++'], cfg['ld'], 'environment variables' if cfg['form'] == 'env' else
+                'toolchain file (%s form)' % cfg['tcstyle'], what), replay)
+    rep.stage('system:flag variables stay on their side', projects=len(jobs), ok=n_ok)
+
+
 # ----------------------------------------------------------------------------- entry points
 def run(rep):
     rng = random.Random(rep.seed)
@@ -1369,10 +1721,12 @@ def run(rep):
         found = (found or 0) + stage_oracle_default_dirs(rep, cs)
         found += stage_oracle_pch(rep, rng)
         found += stage_oracle_placement(rep, rng)
+        found += stage_oracle_sides(rep, rng, 400 if thorough else (120 if dis else 40))
         rep.stage('compilers', invocations=cs.n)
         stage_system(rep, rng, cs)
         stage_system_link(rep, rng, cs, thorough)
         stage_system_words(rep, rng, cs, thorough)
+        stage_system_sides(rep, rng, cs, thorough, extra=4 if dis else 0)
     finally:
         shutil.rmtree(root, ignore_errors=True)
     if dis and not rep.n_with_input:
